@@ -582,4 +582,35 @@ def toksL : List LItem → Bool → List Tok
 def ML.toks (m : ML) : List Tok :=
   if (queries m.seq).isEmpty then [{ typ := .ident, val := cps "all" }] else toksL m.seq true
 
+/-! ## The `MediaQuery.mediaType` setter (`mediaquery.py:193-234`, as of 7e62688)
+
+`_checkReadonly` is outside (a media query is never read-only in the modelled operations). The loop walks `_seq`;
+items whose value is a string are exactly the `.tok` items (comments and value objects are passed over). -/
+
+/-- `normalize(x.value) in ('only', 'not')` (`mediaquery.py:222`) — the tuple literal of the setter -/
+def isSetterSkipWord (v : Cps) : Bool := Gen.C17Media.setterSkipWords.contains (normalize v)
+
+/-- `(mediaType, 'IDENT', None, None)`: the type is stored as it was given -/
+def typeItem (mt : Cps) : QItem := .tok { typ := .ident, val := mt }
+
+/-- `self._seq.insert(i, 'and', 'IDENT')` (`mediaquery.py:230`) -/
+def setterAndItem : QItem := .tok { typ := .ident, val := Gen.C17Media.setterAndWord }
+
+/-- the `for i, x in enumerate(self._seq)` loop (`mediaquery.py:220-232`); `none` = it ended without `break` -/
+def setTypeGo (mt : Cps) : List QItem → Option (List QItem)
+  | [] => none
+  | .tok t :: r =>
+    if isSetterSkipWord t.val then (setTypeGo mt r).map (QItem.tok t :: ·)          -- `continue`
+    else if t.typ = .ident then some (typeItem mt :: r)                              -- `self._seq[i] = …; break`
+    else some (typeItem mt :: setterAndItem :: QItem.tok t :: r)                     -- two `insert(i, …)`; `break`
+  | x :: r => (setTypeGo mt r).map (x :: ·)
+
+/-- `MediaQuery._setMediaType` on a well-formed query: an unknown type is an error (SyntaxErr, logged or raised)
+and nothing changes; otherwise `_mediaType` is the given string and the sequence is updated by the loop, its
+`else` branch putting the type in front (`mediaquery.py:233-234`) -/
+def MQ.setMediaType (q : MQ) (raising : Bool) (mt : Cps) : MQ × Outcome Unit :=
+  if Gen.C17Media.mediaTypes.contains (normalize mt) then
+    ({ items := (setTypeGo mt q.items).getD (typeItem mt :: q.items), mediaType := mt }, .ret ())
+  else (q, if raising then .raised .syntaxErr else .ret ())
+
 end CssVerif.Media
